@@ -378,6 +378,23 @@ class Sym:
         if not inits:
             return None
         self._header_syms[l] = self.loop_sym(l, "|".join(sorted(set(inits))))
+        try:
+            pf = self.pure_fold_loops().get(l)
+        except Exception:
+            pf = None
+        if pf is not None:
+            # accumulator of `for x in IT { acc += widen(x) }` over a sequence of constant length n: at the header of
+            # iteration k < n it is a sum of k <= n-1 elements
+            self._busy_vars.add(("pfl", l))
+            try:
+                self.fold_sum_poly(l, pf)
+            finally:
+                self._busy_vars.discard(("pfl", l))
+            full = getattr(self, "sum_ranges", {}).get(pf[3])
+            n = pf[4][0]
+            if full is not None and n is not None and n.is_const() and int(n.const_value()) >= 1:
+                k_ = int(n.const_value())
+                self.sym_box[self._header_syms[l]] = (full[0] // k_ * (k_ - 1), full[1] // k_ * (k_ - 1))
         return self._header_syms[l]
 
     def bit_signature(self, t):
@@ -910,6 +927,10 @@ class Sym:
         if k == "var":
             vpos = t[2] if len(t) > 2 else None
             bkey = (t[1], vpos)
+            if bkey not in self._busy_vars and ("pfl", t[1]) not in self._busy_vars:
+                pf = self.pure_fold_loops().get(t[1])
+                if pf is not None and (vpos is None or vpos[0] not in pf[2]):
+                    return self.fold_sum_poly(t[1], pf)
             if bkey in self._busy_vars:
                 # a read of the local inside its own redefinition (`i = i + 1`) that resolves to itself: the value it
                 # had at the loop header
@@ -980,6 +1001,35 @@ class Sym:
                 and not d[1].endswith(("::Some", "::Ok", "::Err")):
             return d[2][t[2]]
         return None
+
+    def fold_sum_poly(self, l, pf):
+        """symbol of an accumulation loop's result, with the count x element-range bound when both are known"""
+        nm = pf[3]
+        n, v2 = pf[4]
+        if nm not in self.sym_box and n is not None and n.is_const():
+            v = strip(v2)
+            while v[0] == "call" and len(v[2]) == 1 and (short(v[1]) in ("From::from", "Into::into") or "impl std::convert::From<" in v[1]):
+                v = strip(v[2][0])
+            if v == ("carg", 0):
+                # element type: the type of the `next()` payload
+                ety = None
+                for bb, t_ in self.an.body.calls():
+                    if bb in pf[2] and short(cname(t_)) == "Iterator::next":
+                        d_ = t_.get("dest")
+                        if d_ is not None and not d_["pr"]:
+                            oty = self.an.body.locals[d_["l"]]["ty"]
+                            if oty.get("k") == "adt" and oty.get("a"):
+                                ety = oty["a"][0]
+                while ety is not None and ety.get("k") == "ref":
+                    ety = ety["t"]
+                rng = self.int_range(ety) if ety is not None else (None, None)
+                if rng[0] is not None:
+                    k_ = int(n.const_value())
+                    self.sym_box[nm] = (k_ * rng[0], k_ * rng[1])
+                    if not hasattr(self, "sum_ranges"):
+                        self.sum_ranges = {}
+                    self.sum_ranges[nm] = (k_ * rng[0], k_ * rng[1])
+        return Poly.sym(nm)
 
     def var_defs(self, l, pos=None):
         out = []
@@ -1441,6 +1491,148 @@ class Sym:
         self._pml = out
         return out
 
+    PURE_LOOP_CALLS = ("Iterator::next", "From::from", "Into::into", "Deref::deref", "Clone::clone", "Borrow::borrow", "AsRef::as_ref")
+
+    def pure_fold_loops(self):
+        """{accumulator local: (exit-switch block, header, loop blocks, sum name, range)} for the loops that are nothing but
+        `let mut acc = 0; for x in IT { acc += g(x) }`: one `next`, the exhaustion edge as the only way out, no call other
+        than conversions, every local assigned in the loop other than `acc` is a temporary of the loop, `acc` has the
+        constant initial value 0 and one definition `acc + g(x)` executed on every iteration, and is not read between its
+        initialisation and the loop.  Such a loop is the expression `IT.map(g).sum()`."""
+        if getattr(self, "_pfl", None) is not None:
+            return self._pfl
+        self._pfl = out = {}
+        body = self.an.body
+        tm = self.an.terms
+        heads = {}
+        for (tl, hd) in body.back_edges():
+            heads.setdefault(hd, [set(), []])
+            heads[hd][0].update(body.natural_loop(tl, hd))
+            heads[hd][1].append(tl)
+        for hd, (lp, tails) in heads.items():
+            exits = [(s_, t_) for s_ in lp for t_ in body.succ(s_) if t_ not in lp and body.blocks[t_]["t"].get("k") != "unreachable"]
+            if len(exits) != 1 or any(h2 != hd and h2 in lp for h2 in heads):
+                continue
+            calls = [(bb, t) for bb, t in body.calls() if bb in lp]
+            nexts = [(bb, t) for bb, t in calls if short(cname(t)) == "Iterator::next"]
+            if len(nexts) != 1 or any(short(cname(t)) not in self.PURE_LOOP_CALLS and "impl std::convert::From<" not in cname(t) for _, t in calls):
+                continue
+            try:
+                d, rel, vals = self.an.edge_atom(*exits[0])
+            except Exception:
+                continue
+            ds = strip(d)
+            if not (ds[0] == "discr" and strip(ds[1])[0] == "call" and short(strip(ds[1])[1]) == "Iterator::next"):
+                continue
+            # locals assigned in the loop
+            assigned = {}
+            bad = False
+            for l in range(len(body.locals)):
+                for (bi, si, x) in tm.defs.partial[l]:
+                    if bi in lp:
+                        bad = True
+                for (bi, si, x) in tm.defs.whole[l]:
+                    if bi in lp:
+                        assigned.setdefault(l, []).append((bi, si, x))
+            if bad:
+                continue
+            carried = [l for l in assigned if any(bi not in lp for (bi, si, x) in tm.defs.whole[l])]
+            if len(carried) != 1:
+                continue
+            acc = carried[0]
+            outside = [d_ for d_ in tm.defs.whole[acc] if d_[0] not in lp]
+            inside = assigned[acc]
+            if len(outside) != 1 or len(inside) != 1 or not body.dominates(outside[0][0], hd):
+                continue
+            if not all(body.dominates(inside[0][0], tl) for tl in tails):
+                continue
+            save = getattr(tm, "_pos", None)
+            try:
+                init = strip(self._def_term(outside[0]))
+                step = strip(self._def_term(inside[0]))
+                nbb, nt = nexts[0]
+                tm._pos = (nbb, "t")
+                ncall = tm.call_term(nt, nbb)
+                it = tm.operand(nt["args"][0])
+            except Exception:
+                continue
+            finally:
+                tm._pos = save
+            if not (init[0] == "const" and init[1] == 0 and not isinstance(init[1], bool)):
+                continue
+            if not (step[0] == "bin" and step[1] == "Add" and len(step) == 4):
+                continue
+            a_, b_ = strip(step[2]), step[3]
+            if not (a_[0] == "var" and a_[1] == acc):
+                a_, b_ = strip(step[3]), step[2]
+            if not (a_[0] == "var" and a_[1] == acc):
+                continue
+            elem = ("field", ("downcast", ncall, "Some"), 0)
+
+            def sub(x):
+                if not isinstance(x, tuple) or not x or not isinstance(x[0], str):
+                    return x
+                if x == elem or strip(x) == elem:
+                    return ("carg", 0)
+                o_ = [x[0]]
+                for y in x[1:]:
+                    if isinstance(y, tuple) and y and isinstance(y[0], str):
+                        o_.append(sub(y))
+                    elif isinstance(y, tuple):
+                        o_.append(tuple(sub(z) if isinstance(z, tuple) else z for z in y))
+                    else:
+                        o_.append(y)
+                return tuple(o_)
+            v2 = sub(b_)
+            from .terms import walk as _walk
+            if not any(z == ("carg", 0) for z in _walk(v2)) or any(z[0] in ("var", "loopval", "mut") for z in _walk(v2)):
+                continue
+            # no read of acc between its initialisation and the loop: every other use is dominated by the exit
+            exit_to = exits[0][1]
+            reads_ok = True
+            for bi in body.reachable():
+                if bi in lp or bi == outside[0][0]:
+                    continue
+                if self._mentions_local(body.blocks[bi], acc) and not body.dominates(exit_to, bi):
+                    reads_ok = False
+            if not reads_ok:
+                continue
+            src = it
+            while src[0] in ("ref", "deref", "mut"):
+                src = src[1] if src[0] != "mut" else src[2]
+            while src[0] == "call" and short(src[1]) == "IntoIterator::into_iter" and len(src[2]) == 1:
+                src = src[2][0]
+                while src[0] in ("ref", "deref"):
+                    src = src[1]
+            try:
+                sty = self.type_of(src)
+                src_nm = self.arg_name(src)
+                if not (src[0] == "call" and (short(src[1]).startswith("Iterator::") or short(src[1]).endswith("::iter"))):
+                    src_nm = "<impl [T]>::iter(%s)" % src_nm          # `for x in &slice` is slice.iter()
+                nm = "Iterator::sum(Iterator::map(%s,|x| %s))" % (src_nm, closure_pred_name(self, None, v2))
+            except Exception:
+                continue
+            # value range: count x element range when both are known
+            rng = None
+            try:
+                n = self.seq_len(src)
+                ety = body.locals[[l for l in assigned if l != acc][0]]["ty"] if False else None
+            except Exception:
+                n = None
+            out[acc] = (exits[0][0], hd, frozenset(lp), nm, (n, v2))
+        return out
+
+    def _mentions_local(self, blk, l):
+        def walk_json(x):
+            if isinstance(x, dict):
+                if x.get("l") == l and "pr" in x:
+                    return True
+                return any(walk_json(v) for v in x.values())
+            if isinstance(x, list):
+                return any(walk_json(v) for v in x)
+            return False
+        return walk_json(blk)
+
     def push_loop_as_map(self, pbb, pterm):
         """`let mut v = Vec::new(); for x in IT { v.push(f(x)) }` (one push, on every iteration of a loop over IT, the
         pushed value a function of the loop's element) is `IT.map(|x| f(x)).collect()`: the same canonical name"""
@@ -1557,6 +1749,9 @@ class Sym:
         pml = self.pure_map_loops()
         if s in pml and t not in pml[s][1]:
             return []                       # exhaustion of a map/collect written as a push loop
+        for (xs_, hd_, lp_, nm_, _) in self.pure_fold_loops().values():
+            if s == xs_ and t not in lp_:
+                return []                   # exhaustion of a map/sum written as an accumulation loop
         d, rel, vals = self.an.edge_atom(s, t)
         dty = self.an.body.blocks[s]["t"].get("dty", {})
         return self.atoms(d, rel, vals, is_bool=(dty.get("k") == "bool"))
